@@ -22,6 +22,19 @@ def extend2(f, z1, z2, w1, w2):
     return assemble(f(a, c), f(b, d))
 
 
+def clog1p_ref(w):
+    """log(1 + w) for complex w with full relative accuracy: the alternating series (40 terms) for |w| < 0.1 — numpy's complex log1p
+    loses the relative accuracy of the real part for small w — and log(1 + w) otherwise"""
+    w = np.asarray(w, dtype=complex)
+    small = np.abs(w) < 0.1
+    ws = np.where(small, w, 0)
+    acc = np.zeros_like(ws)
+    for k in range(40, 0, -1):          # sum_{k>=1} (-1)^(k+1) w^k / k, smallest terms first
+        acc = acc + ((-1.0) ** (k + 1) / k) * ws ** k
+    out = np.where(small, acc, np.log(1 + np.where(small, 0, w)))
+    return out if out.ndim else complex(out)
+
+
 UNARY = {
     # name: (complex function, real domain (lo, hi))
     'exp': (np.exp, (-3, 3)), 'log': (np.log, (0.2, 5)), 'sqrt': (np.sqrt, (0.2, 5)),
@@ -33,6 +46,6 @@ UNARY = {
     'csch': (lambda w: 1 / np.sinh(w), (0.3, 3)),
     'arcsin': (np.arcsin, (-0.8, 0.8)), 'arccos': (np.arccos, (-0.8, 0.8)), 'arctan': (np.arctan, (-3, 3)),
     'arccosh': (np.arccosh, (1.3, 5)), 'arcsinh': (np.arcsinh, (-3, 3)), 'arctanh': (np.arctanh, (-0.8, 0.8)),
-    'expm1': (np.expm1, (-2, 2)), 'log1p': (np.log1p, (-0.7, 3)), 'log2': (np.log2, (0.2, 5)),
+    'expm1': (np.expm1, (-2, 2)), 'log1p': (clog1p_ref, (-0.7, 3)), 'log2': (np.log2, (0.2, 5)),
     'log10': (np.log10, (0.2, 5)), 'exp2': (np.exp2, (-3, 3)),
 }
